@@ -246,6 +246,7 @@ def explore(cfg, monitors=(), menu=None, menu_opts=None, dev_bound=None,
                     continue
                 c = clone(st)
                 ctx.cur_event = ev
+                ctx.node_ms = node.ms
                 for m in monitors:
                     f = getattr(m, 'before_apply', None)
                     if f:
